@@ -265,6 +265,13 @@ func c07(c *core.Check) {
 				if !isFieldOf(sf.Info(), l, "vm.thread", "time") {
 					continue
 				}
+				// a reset to the zero time (time.Time{}) outside the instruction cases clears the register, which is
+				// what a fresh thread has: not a write of an instant
+				if _, inCase := inCases[as]; !inCase && len(as.Lhs) == len(as.Rhs) && c07BeforeInstructions(c, sf, as) {
+					if cl, isLit := core.Unparen(as.Rhs[k]).(*ast.CompositeLit); isLit && len(cl.Elts) == 0 {
+						continue
+					}
+				}
 				nreg++
 				op, okSite := inCases[as]
 				c.Verdict(okSite, "C07-R2", fmt.Sprintf("time register write #%d in %s", nreg, sf.Key), pos(c, as), "strptime/settime only", "the time register is written outside the strptime and settime instructions")
@@ -458,4 +465,48 @@ func c07(c *core.Check) {
 		c.Verdict(okS, "C07-R3", "BaseDatum.stamp", pos(c, sf.Decl), "now iff zero", "the datum layer does not substitute the current time exactly for the zero (unset) time ("+whyS+")", trS...)
 	}
 	c.Floor("C07-R3", 6)
+}
+
+// c07BeforeInstructions: the statement cannot run between two instructions of a line: it is not in execute
+// nor in a function reachable from it, and in ProcessLogLine it precedes the first call of execute.
+func c07BeforeInstructions(c *core.Check, sf *core.Func, n ast.Node) bool {
+	ex := c.Prog.Fn(vmExecute)
+	if ex == nil || sf == ex {
+		return false
+	}
+	seen := map[*core.Func]bool{ex: true}
+	work := []*core.Func{ex}
+	for len(work) > 0 {
+		f := work[0]
+		work = work[1:]
+		if f.Body == nil {
+			continue
+		}
+		for _, cf := range f.Callees() {
+			if !seen[cf] {
+				seen[cf] = true
+				work = append(work, cf)
+			}
+		}
+	}
+	if seen[sf] {
+		return false
+	}
+	if pll := c.Prog.Fn(processLogLine); pll != nil && sf == pll {
+		for _, h := range pll.Graph().CallsTo(vmExecute) {
+			if h.N.Pos() <= n.Pos() {
+				return false
+			}
+		}
+		// inside the instruction loop?
+		inLoop := false
+		ast.Inspect(pll.Body, func(x ast.Node) bool {
+			if fs, ok := x.(*ast.ForStmt); ok && fs.Pos() <= n.Pos() && n.End() <= fs.End() {
+				inLoop = true
+			}
+			return true
+		})
+		return !inLoop
+	}
+	return true
 }
